@@ -109,8 +109,14 @@ def stage_hmmer(case: Dict[str, Any]) -> Dict[str, str]:
     hits = [hmmer.HmmerHit(location="[0:1]", label="cds", locus_tag="cds", domain=HM_IDS[h[0]], evalue=1e-5,
                            score=h[3] / 4, translation="M" * (h[2] - h[1]), identifier=HM_IDS[h[0]],
                            description="d", protein_start=h[1], protein_end=h[2]) for h in case["hits"]]
-    out = hmmer.remove_overlapping(hits, cutoffs, overlap_limit=case["limit"])
-    return {"hmmer": json.dumps([[h.identifier, h.protein_start, h.protein_end, float(h.score).hex()] for h in out])}
+    def dump(out: List[Any]) -> str:
+        return json.dumps([[h.identifier, h.protein_start, h.protein_end, float(h.score).hex()] for h in out])
+    res = {"hmmer": dump(hmmer.remove_overlapping(list(hits), cutoffs, overlap_limit=case["limit"]))}
+    # the same hits in an order that depends on this child's history: upstream list order must not matter
+    if hits:
+        k = len(_KEEP) % len(hits)
+        res["hmmer_rotated"] = dump(hmmer.remove_overlapping(hits[k:] + hits[:k], cutoffs, overlap_limit=case["limit"]))
+    return res
 
 
 def stage_filter(case: Dict[str, Any]) -> Dict[str, str]:
